@@ -987,7 +987,7 @@ func cbkReentry(r *h.Report, base int, skips bool) bool {
 	if !skips {
 		paths = append(paths, path{"reply-node-management", 0, "reply"})
 	}
-	actions := []string{"add-response-callback", "add-result-callback", "data-copy", "set-approval-timeout", "slow"}
+	actions := []string{"add-response-callback", "add-result-callback", "data-copy", "read-api", "set-approval-timeout", "slow"}
 	const bound = 2 * time.Second
 	for _, pa := range paths {
 		for _, n := range []int{1, 3} {
@@ -1009,6 +1009,8 @@ func cbkReentry(r *h.Report, base int, skips bool) bool {
 						feat.AddResultCallback(cbkMkRes(w.log, 11))
 					case "data-copy":
 						_ = feat.DataCopy(model.FunctionTypeLoadControlLimitListData)
+					case "read-api":
+						_, _, _ = feat.Functions(), feat.Description(), feat.Operations()
 					case "set-approval-timeout":
 						feat.SetWriteApprovalTimeout(time.Second)
 					case "slow":
@@ -1136,6 +1138,7 @@ func cbkReentry(r *h.Report, base int, skips bool) bool {
 			w.log.add(20, true, m)
 			if atomic.AddInt32(&once, 1) == 1 {
 				_ = feat.AddResponseCallback(31, cbkMk2(w.log, 10))
+				_, _, _ = feat.Functions(), feat.Description(), feat.DataCopy(model.FunctionTypeLoadControlLimitListData)
 			}
 		})
 		for i, a := range []struct {
@@ -1151,7 +1154,7 @@ func cbkReentry(r *h.Report, base int, skips bool) bool {
 				w.send(1, f, cl, ctr, util.Ptr(model.MsgCounterType(a.ref)), cbkSrc(1, f), cmd)
 			}()
 			if !cbkWithin(done, bound) {
-				r.SpecFail(cbkReentryKey, ops, fmt.Sprintf("HandleSpineMesssage of result %d (reference %d) did not return within %v of kept time: a result callback is invoked on the message-processing goroutine while the registry mutex is held", i+1, a.ref, bound))
+				r.SpecFail(cbkReentryKey, ops, fmt.Sprintf("HandleSpineMesssage of result %d (reference %d) did not return within %v of kept time: a result callback is invoked on the message-processing goroutine while a mutex of the feature that the callback needs (registry mutex, data or description mutex) is held", i+1, a.ref, bound))
 				return false
 			}
 			if !cbkSettle(base) {
